@@ -454,8 +454,51 @@ def family_strings():
     return [m.done("strings")]
 
 
+# ---------------------------------------------------------------- 10. points of BLS12-381 (constants the optimiser collects and shares)
+def family_points():
+    """G1 / G2 points as multiples of the generator: the generator, its negation and the point at infinity as literals, each several times in
+    one program (the optimiser's `bls381_compressor` replaces equal point constants by one shared binding), combined with neg / add /
+    scalar_mul on integer arguments and compared with `equal`.  In Aiken.tla a point is the integer multiple it is of the generator."""
+    bcall = lambda f, *a: {"k": "bcall", "f": f, "args": list(a)}
+    grid = [[DI(a), DI(b)] for a, b in [(0, 1), (1, 0), (2, 3), (3, 2), (-1, 0), (0, -1), (5, 5), (1, -1), (-2, -1), (0, 0)]]
+    mods = []
+    for g in ("g1", "g2"):
+        P = lambda n: {"k": "point", "g": g, "n": n}
+        f = lambda name, *a: bcall("bls12_381_%s_%s" % (g, name), *a)
+        m = Mod()
+        A, B = V("arg0"), V("arg1")
+        E = lambda ret, body: m.entry([INT, INT], ret, body, grid)
+        # the generator and its negation side by side (same x coordinate, opposite y)
+        E(BOOL, f("equal", f("neg", P(1)), P(-1)))
+        E(BOOL, f("equal", P(1), P(-1)))
+        E(BOOL, binop("||", f("equal", P(1), P(-1)), f("equal", f("add", P(1), P(-1)), P(0))))
+        E(BOOL, f("equal", f("scalar_mul", A, P(1)), f("add", P(-1), f("scalar_mul", B, P(1)))))            # a = b - 1
+        E(BOOL, f("equal", f("scalar_mul", A, P(-1)), f("add", P(1), f("scalar_mul", B, P(-1)))))           # -a = 1 - b
+        E(BOOL, f("equal", f("add", f("scalar_mul", A, P(1)), f("scalar_mul", B, P(-1))), P(0)))             # a - b = 0
+        E(BOOL, f("equal", f("add", f("scalar_mul", A, P(1)), f("scalar_mul", B, P(-1))), f("add", P(1), P(1))))   # a - b = 2, the generator four times
+        E(BOOL, f("equal", f("add", f("add", P(-1), P(-1)), f("scalar_mul", A, P(1))), f("add", P(1), f("scalar_mul", B, P(-1)))))   # a - 2 = 1 - b
+        E(BOOL, binop("&&", f("equal", f("scalar_mul", A, P(0)), P(0)), f("equal", f("add", P(0), f("scalar_mul", B, P(1))), f("neg", f("scalar_mul", B, P(-1))))))
+        # the same through local bindings and through a function of the module (hoisted code holding point constants)
+        E(BOOL, {"k": "let", "x": "p", "e": f("scalar_mul", A, P(1)), "body":
+                 {"k": "let", "x": "q", "e": f("add", V("p"), P(-1)), "body": f("equal", f("add", V("q"), P(1)), f("scalar_mul", B, P(1)))}})
+        E(INT, {"k": "if", "c": f("equal", f("scalar_mul", A, P(1)), P(-1)), "t": I(1), "e":
+                {"k": "if", "c": f("equal", f("scalar_mul", A, P(1)), P(1)), "t": I(2), "e": {"k": "if", "c": f("equal", f("scalar_mul", A, P(1)), P(0)), "t": I(3), "e": I(4)}}})
+        mods.append(m.done("points"))
+    # both groups in one program
+    m = Mod()
+    A, B = V("arg0"), V("arg1")
+    P1 = lambda n: {"k": "point", "g": "g1", "n": n}
+    P2 = lambda n: {"k": "point", "g": "g2", "n": n}
+    m.entry([INT, INT], BOOL, binop("&&", bcall("bls12_381_g1_equal", bcall("bls12_381_g1_scalar_mul", A, P1(1)), bcall("bls12_381_g1_add", P1(-1), bcall("bls12_381_g1_scalar_mul", B, P1(1)))),
+                                    bcall("bls12_381_g2_equal", bcall("bls12_381_g2_scalar_mul", A, P2(-1)), bcall("bls12_381_g2_add", P2(1), bcall("bls12_381_g2_scalar_mul", B, P2(-1))))), grid)
+    m.entry([INT, INT], BOOL, binop("||", bcall("bls12_381_g1_equal", P1(1), bcall("bls12_381_g1_scalar_mul", A, P1(-1))),
+                                    bcall("bls12_381_g2_equal", P2(-1), bcall("bls12_381_g2_scalar_mul", B, P2(1)))), grid)
+    mods.append(m.done("points"))
+    return mods
+
+
 def all_families():
-    return family_expect_list() + family_cast() + family_trace_only() + family_repeated_constant() + family_data_param() + family_recursion() + \
+    return family_points() + family_expect_list() + family_cast() + family_trace_only() + family_repeated_constant() + family_data_param() + family_recursion() + \
         family_strictness() + family_generics() + family_strings()
 
 
